@@ -88,6 +88,7 @@ def make_app(cfg):
          '        if op[0] == "set": c[op[1]] = op[2]\n'
          '        elif op[0] == "del": c.pop(op[1], None)\n'
          '        elif op[0] == "clear": c.clear()\n'
+         '        elif op[0] == "expire": c.set_expires() if op[1] == "now" else c.set_expires(op[1])\n'
          '    if request.args.get("aux") and %s:\n'
          '        aux["n"] = aux.get("n", 0) + 1\n'
          '    return Response(json.dumps(before), mimetype="application/json")\n' % (arg, aux_param, arg, 'True' if second else 'False'), ns)
@@ -106,6 +107,8 @@ def make_app(cfg):
 def apply_ops(data, ops):
     d = dict(data)
     for op in ops:
+        if op[0] == 'expire':
+            continue
         if op[0] == 'set':
             d[op[1]] = op[2]
         elif op[0] == 'del':
@@ -257,10 +260,20 @@ class CookieSim(object):
                 ctx.mismatch('no-set-cookie-second', '%s: the second cookie middleware\'s data changed but its Set-Cookie is missing' % what)
                 return
         sc = [v for k, v in r.headers if k.lower() == 'set-cookie' and v.startswith(self.cookie_name + '=')]
-        modified = not same_json(new, presented) or any(op[0] == 'set' for op in ops)
+        modified = not same_json(new, presented) or any(op[0] in ('set', 'expire') for op in ops)
         if sc:
             val = sc[-1].split(';', 1)[0].split('=', 1)[1]
             exp = (self.clock.now + self.cfg['expiry']) if self.numeric() else None
+            # an expiry the application set itself through the cookie object overrides the middleware's
+            explicit = []
+            for op in ops:
+                if op[0] == 'expire':
+                    explicit.append(op[1])
+                elif op[0] == 'clear':
+                    explicit = []           # the expiry is kept inside the cookie: clear() drops it with everything else
+            if explicit:
+                exp = 123456 if explicit[-1] == 'now' else explicit[-1]
+                self.pending = True
             self.ledger.append({'cookie': val, 'payload': val.strip('"').split('?', 1)[1] if '?' in val else '',
                                 'data': new, 'expires_at': exp})
             self.client[client] = val
@@ -318,7 +331,8 @@ def machine():
                              st.recursive(st.one_of(st.integers(-9, 9), st.text(max_size=5), st.booleans(), st.none(), st.floats(-1e6, 1e6)),
                                           lambda ch: st.one_of(st.lists(ch, max_size=3), st.dictionaries(st.text(max_size=3), ch, max_size=3)),
                                           max_leaves=6)).map(list),
-                   st.tuples(st.just('del'), st.sampled_from(KEYS)).map(list), st.just(['clear']))
+                   st.tuples(st.just('del'), st.sampled_from(KEYS)).map(list), st.just(['clear']),
+                   st.sampled_from([['expire', 'now'], ['expire', 1000000 + 50], ['expire', 1000000 + 5000], ['expire', 10 ** 10]]))
     ops = st.lists(op, max_size=3)
     cfgs = st.fixed_dictionaries({'expiry': st.sampled_from(['session', 'never', 5, 100, 100, 3600]),
                                   'arg_name': st.sampled_from([None, None, 'session', 'sess_data']),
